@@ -54,21 +54,22 @@ def remove_guard(rep):
         names += q.members(R.lang(c.pattern), 3, maxlen=24)
     names += ['wx/1', 'q', 'tmp', 'w', 'development/w/x', ' w/x', 'W/x']
     for n in names:
+      for do_push in (True, False):
         log = []
         repo = type('R', (), {'cmd': lambda self, *a, **k: log.append(a) or '',
                               'push': lambda self, x: log.append(('push', x))})()
         b = G.Branch(repo, n)
         own = n.startswith(('w/', 'q/', 'tmp/'))
         try:
-            b.remove(do_push=True)
+            b.remove(do_push=do_push)
             refused = False
         except G.ForbiddenOperation:
             refused = True
         rep.transitions += 1
         if refused == own or (refused and log):
             rep.cexs.append(Cex('C08', 'Branch.remove guard wrong', dict(part='guard', name=n), True,
-                                'name %r: refused=%s commands=%s' % (n, refused, log)))
-            break
+                                'name %r do_push=%s: refused=%s commands=%s' % (n, do_push, refused, log)))
+            return
         rep.validated += 1
     rep.queries += q.n
 
